@@ -66,11 +66,15 @@ def make_fsm(client, history, upgrade):
     alpha = []
     sids = (1, 2, 3, 5)
     for sid in sids:
-        for kind in ('req', 'resp', 'info', 'trailers', 'bad'):
+        for kind in ('req', 'resp', 'info', 'trailers', 'bad', 'noauth', 'hostmismatch',
+                     'emptypath'):
             for end in (False, True):
+                if kind in ('noauth', 'hostmismatch', 'emptypath') and end:
+                    continue
                 alpha.append(('send_headers', sid, kind, end))
     alpha += [('push', 1, 2), ('push', 1, 4), ('push', 1, 3), ('push', 2, 4), ('push', 3, 2),
-              ('push', 5, 6)]
+              ('push', 5, 6), ('push', 1, 2, 'noauth'), ('push', 1, 2, 'hostmismatch'),
+              ('push', 1, 2, 'emptypath')]
 
     def h():
         with h2h.native():
@@ -92,7 +96,7 @@ def make_fsm(client, history, upgrade):
         exc = None
         try:
             if op[0] == 'push':
-                me.push_stream(op[1], op[2], h2h.REQ)
+                me.push_stream(op[1], op[2], ops.KIND_HEADERS[op[3]] if len(op) > 3 else h2h.REQ)
             else:
                 me.send_headers(op[1], ops.KIND_HEADERS[op[2]], end_stream=op[3], **kw)
         except (h2.exceptions.H2Error, ValueError, TypeError) as e:
